@@ -49,6 +49,7 @@ structure Tables where
   impliedSchemaUnvalidated : Bool
   dupDirectiveInlineAccepted : Bool
   listNeedsMember : Bool
+  condStrict : Bool
   reflectOptionalRefused : Bool
   eventVarsEmpty : Bool
   symbolBaseEnum : Bool
